@@ -142,6 +142,20 @@ def run(tier: str = "quick", seed: int = 0) -> dict:
         for x in nodes:
             if x.xpath != exp[id(x)]:
                 fail(f"calculate_xpath: {type(x).__name__} has xpath {x.xpath!r}, chain spells {exp[id(x)]!r}")
+        # ... also after the tree changed below nodes whose own path stays the same (a second calculation must reach what was spliced in)
+        leaves = [x for x in nodes if x is not root and not L.ref_children(x)]
+        if leaves:
+            evals += 1
+            try:
+                leaves[0].replace_with(L.build(("U", ("L", 901), ("T", (("L", 902),), (("S", 903),)))))
+                root.calculate_xpath()
+                exp = expect_paths(root, f"/@root[0]{type(root).__name__}")
+                for x in L.ref_nodes(root):
+                    if x.xpath != exp[id(x)]:
+                        fail(f"calculate_xpath after a replace_with below: {type(x).__name__} has xpath {x.xpath!r}, chain spells {exp[id(x)]!r}")
+                        break
+            except Exception as e:
+                fail(f"calculate_xpath after replace_with on {desc!r:.60} raised {type(e).__name__}: {e!s:.80}")
         if len(samples) < 3:
             samples.append({"tree": str(desc)[:100], "starts": len(starts)})
     # legacy xpath matching against the documented semantics
@@ -202,5 +216,5 @@ def run(tier: str = "quick", seed: int = 0) -> dict:
                 fail(f"legacy ASTXpath({text!r}) raised {type(e).__name__} instead of the definition error")
     L.clear_registry()
     return {"evaluations": evals, "distinct_nontrivial": len(distinct),
-            "rule": "5 attached legacy trees (tuple and list child fields, optional children, a 13-tuple, content-identical twins) x up to 3 start nodes x seeded prune / filter predicates (start node pruned in ~30%) x skip_self x bottom_up for dfs / bfs / gather against a recursive reference in which a skipped start node is offered to neither callback; calculate_xpath against the chain spelling; grammar-generated xpaths (1-4 steps, indices 11/12) matched on every node against the top-down documented semantics; malformed xpaths raise the definition error only; distinct = (tree, predicates, skip) / (xpath, tree)",
+            "rule": "5 attached legacy trees (tuple and list child fields, optional children, a 13-tuple, content-identical twins) x up to 3 start nodes x seeded prune / filter predicates (start node pruned in ~30%) x skip_self x bottom_up for dfs / bfs / gather against a recursive reference in which a skipped start node is offered to neither callback; calculate_xpath against the chain spelling, also after a subtree was spliced in below unchanged paths; grammar-generated xpaths (1-4 steps, indices 11/12) matched on every node against the top-down documented semantics; malformed xpaths raise the definition error only; distinct = (tree, predicates, skip) / (xpath, tree)",
             "samples": samples, "failures": failures, "bound": "5 trees, seeded predicates"}
